@@ -229,6 +229,19 @@ func (p *Prog) pkgByPath(path string) *types.Package {
 // importedPkg resolves a package name used in a spec expression relative to pkg.
 func (p *Prog) importedPkg(pkg *types.Package, name string) *types.Package {
 	if pkg != nil {
+		// import aliases of the package's own files
+		if pk, ok := p.byPath[pkg.Path()]; ok {
+			for _, f := range pk.Syntax {
+				for _, is := range f.Imports {
+					if is.Name != nil && is.Name.Name == name {
+						path := strings.Trim(is.Path.Value, "\"")
+						if tp := p.pkgByPath(path); tp != nil {
+							return tp
+						}
+					}
+				}
+			}
+		}
 		for _, imp := range pkg.Imports() {
 			if imp.Name() == name {
 				return imp
